@@ -165,8 +165,13 @@ m("c20_float32_accumulator", "C20", ES, "self.tracked_value = (1 - self.alpha) *
 def worktree(tag):
     d = tempfile.mkdtemp(prefix=f"vfmut_{tag}_", dir="/tmp")
     os.rmdir(d)
-    subprocess.run(["git", "-C", REPO, "worktree", "add", "--detach", d, "HEAD"], check=True, capture_output=True)
-    return d
+    for attempt in range(8):        # (git takes a lock on the repository: retry when several runners add worktrees at once)
+        r = subprocess.run(["git", "-C", REPO, "worktree", "add", "--detach", d, "HEAD"], capture_output=True)
+        if r.returncode == 0:
+            return d
+        import time
+        time.sleep(1.5 + attempt)
+    raise RuntimeError("git worktree add failed: " + r.stderr.decode()[-200:])
 
 
 def drop(d):
